@@ -521,6 +521,7 @@ func c16Locks(r *core.Run, p *core.Program) {
 	r.Check(len(badIO) == 0 && nIO >= 6, rule, "file-io", "-", fmt.Sprintf("%d operations on the data/index files under the disk mutex", nIO), strings.Join(badIO, "; "))
 	sf := p.Func("lib/chain.(*BlockDB).setBlockFlag")
 	c16FlagUpdateOrder(r, p, rule)
+	c16TrustedMarkFollowsDisk(r, p, rule)
 	// the in-memory mark does not depend on the record being on disk already: a block marked trusted while its
 	// write is still queued must carry the mark into the record written later (writeOne copies rec.trusted)
 	if sf != nil {
@@ -1448,4 +1449,64 @@ func c16FlagUpdateOrder(r *core.Run, p *core.Program, rule string) {
 			return an.Atoms(c.Common().Args[1])["call:(*os.File).Seek#0"] && wh != nil && wh.Sign() == 0
 		}},
 	})
+}
+
+// c16TrustedMarkFollowsDisk: the trusted state of a block is kept twice, in the index record in memory and in
+// the flags byte of its record in blockchain.new.  For a record that is already on disk the two change together
+// in setBlockFlag only; anywhere else the in-memory mark may be set to true only for a record that is not on
+// disk yet (under 'that record's ipos == -1': writeOne copies the mark into the record it writes later) or for
+// a record that is being created.  A mark set in memory for a saved record makes BlockTrusted skip the disk
+// update (it tests the mark first), and the flag is gone after a restart.
+func c16TrustedMarkFollowsDisk(r *core.Run, p *core.Program, rule string) {
+	key := "flag-update/memory-mark-follows-disk"
+	n := 0
+	var bad []string
+	for _, fn := range p.ModuleFuncs() {
+		if fn.Pkg == nil || !strings.HasSuffix(fn.Pkg.Pkg.Path(), "lib/chain") || fn.Name() == "setBlockFlag" {
+			continue
+		}
+		an.Instrs(fn, func(i ssa.Instruction) {
+			st, ok := i.(*ssa.Store)
+			if !ok {
+				return
+			}
+			fa, ok := st.Addr.(*ssa.FieldAddr)
+			if !ok {
+				return
+			}
+			if f, _ := an.FieldOf(fa); f != "lib/chain.oneBl.trusted" || an.Expr(st.Val) != "true" {
+				return
+			}
+			n++
+			if _, fresh := fa.X.(*ssa.Alloc); fresh {
+				return
+			}
+			for _, dc := range an.DomConds(st.Block()) {
+				x, y, rel, ok := dc.Cmp()
+				if !ok {
+					continue
+				}
+				ld, isLd := x.(*ssa.UnOp)
+				if !isLd || ld.Op != token.MUL {
+					continue
+				}
+				ifa, ok := ld.X.(*ssa.FieldAddr)
+				if !ok || ifa.X != fa.X {
+					continue
+				}
+				if f, _ := an.FieldOf(ifa); f != "lib/chain.oneBl.ipos" {
+					continue
+				}
+				k, isK := an.ConstOf(y)
+				if !isK {
+					continue
+				}
+				if (rel == token.EQL && k.Int64() == -1) || (rel == token.LSS && k.Sign() == 0) || (rel == token.LEQ && k.Int64() == -1) {
+					return
+				}
+			}
+			bad = append(bad, fmt.Sprintf("%s sets the in-memory trusted mark at %s for a record that may already be on disk, without the flag being written to the index file: BlockTrusted then finds the mark set and skips the disk update, and the flag is lost at the next restart", fn.Name(), p.Pos(st.Pos())))
+		})
+	}
+	r.Check(len(bad) == 0, rule, key, "-", fmt.Sprintf("%d store(s) of trusted = true outside setBlockFlag, each on a new record or under 'the record is not on disk yet'", n), strings.Join(bad, "; "))
 }
